@@ -1298,7 +1298,7 @@ fn c15_read_rr_soa_sk() {
 
 // ---- symbolic name structure (thorough) ----------------------------------------------------------
 
-// @harness props=C15 panics=C15,C01 kani="--no-assertion-reach-checks" tier=thorough mem=12 t=3000 fn="Reader::read_question,Name::try_from_compressed"
+// @harness props=C15 panics=C15,C01 kani="--no-assertion-reach-checks" tier=thorough mem=10 t=3000 fn="Reader::read_question,Name::try_from_compressed"
 //   bound="every 17-octet message whose 12 header octets are zero (a pointer into the header reaches a root label) and whose 5 body octets are symbolic: every QNAME structure that fits 5 octets; unwind 8"
 //   stubs="S7" sym="body:[u8;5]"
 #[kani::proof]
@@ -1312,21 +1312,12 @@ fn c15_read_question_body5() {
     kani::cover!(o.late_err, "QNAME decodes, QTYPE/QCLASS do not fit");
 }
 
-// @harness props=C15 panics=C15,C01 kani="--no-assertion-reach-checks" tier=thorough mem=12 t=3000 fn="Reader::peek_rr,PeekRr::owner,PeekRr::parse_owner,Name::try_from_compressed"
-//   bound="every 25-octet message with zero header, 3 symbolic octets where the owner starts, then [0,10, c,c, t,t,t,t, 0,0] (so whichever way the 3 octets split into owner and fixed fields, the record may or may not frame); peek_rr, owner() twice, drop; unwind 8"
-//   stubs="S7" sym="s:[u8;3], class, ttl"
-#[kani::proof]
-#[kani::unwind(8)]
-#[kani::stub(arrayvec::ArrayVec::try_extend_from_slice, try_extend_model)]
-fn c15_peek_owner_sym3() {
-    let s: [u8; 3] = kani::any();
-    let d: [u8; 6] = kani::any();
-    let b = [0, 0, 0, 0, 0, 0, 0, 0, 0, 0, 0, 0, s[0], s[1], s[2], 0, 10, d[0], d[1], d[2], d[3], d[4], d[5], 0, 0];
-    let mut r = Reader::try_from(&b[..]).unwrap();
-    let o = read_rr_at::<PEEK_OWNER, L_OPAQUE>(&b, &mut r);
-    kani::cover!(o.ok && o.name_ptr, "owner that is a pointer into the header decoded");
-    kani::cover!(o.late_err, "record frames, owner does not decode");
-}
+// Not here: PeekRr::owner / read_rr on an owner with symbolic structure.  A
+// harness with 3 symbolic owner octets in front of concrete fixed fields
+// (peek_rr, owner(), drop) was still in symbolic execution after 43 min at
+// 7.3 GB and was removed; symbolic name structure is covered for the name
+// decoder alone by C14 (name_wire) and for the skipping operations by the
+// "any" harnesses above.
 
 // --------------------------------------------------------------------------
 // C09 side harness: the TTL clamp over all u32
